@@ -328,6 +328,7 @@ def run_case(data):
                 hls = None
             # (announced alone, or together with other settings in the same SETTINGS frame)
             second_pending = False
+            ack_with_block = False
             if hls is None:
                 hls = default_hls
                 if hls_touched:
@@ -344,7 +345,10 @@ def run_case(data):
                     # a second change is already on its way when the first is acknowledged: it does not count yet
                     ep.call('update_settings', {wire.S_MAX_HEADER_LIST_SIZE: 60000})
                     second_pending = True
-                feed(wire.settings(ack=True), 1, 'header-list-size')
+                # the acknowledgement arrives on its own, or in the same receive_data call as the block it governs
+                ack_with_block = ch.bool()
+                if not ack_with_block:
+                    feed(wire.settings(ack=True), 1, 'header-list-size')
                 if dead:
                     break
             base = RESP if client else REQ
@@ -366,8 +370,10 @@ def run_case(data):
             else:
                 sid = next_peer
                 next_peer += 2
-            o = feed(wire.headers(sid, raw_block(fields)), 1, 'header-list-size')
-            r.step('header list size', target, 'limit', hls, o.brief())
+            o = feed((wire.settings(ack=True) if ack_with_block else b'') + wire.headers(sid, raw_block(fields)),
+                     2 if ack_with_block else 1, 'header-list-size')
+            r.step('header list size', target, 'limit', hls, 'acknowledged in the same call' if ack_with_block else '',
+                   o.brief())
             if target <= hls:
                 if not o.ok:
                     r.violate('C27:header-list-within-limit-refused:delta=%d' % delta, o.brief())
@@ -378,7 +384,29 @@ def run_case(data):
                 elif o.code != wire.ENHANCE_YOUR_CALM:
                     r.violate('C27:oversized-header-list-wrong-code:%s' % o.code, '')
             if not dead and second_pending:
+                back = ch.bool()
+                if back:
+                    # before the second change (60000) is acknowledged the application goes back to the value in
+                    # force: three SETTINGS frames, three acknowledgements, and the last one counts
+                    ep.call('update_settings', {wire.S_MAX_HEADER_LIST_SIZE: hls})
                 feed(wire.settings(ack=True), 1, 'header-list-size')
+                if back and not dead:
+                    feed(wire.settings(ack=True), 1, 'header-list-size')
+                    fill2 = hls + 40 - base_size - 32 - len(b'x-fill')
+                    if not dead and fill2 >= 0:
+                        sid2 = next_local if client else next_peer
+                        if client:
+                            next_local += 2
+                            ep.call('send_headers', sid2, REQ)
+                        else:
+                            next_peer += 2
+                        o = feed(wire.headers(sid2, raw_block(base + [(b'x-fill', b'v' * fill2)])), 1,
+                                 'header-list-size')
+                        r.step('header list of', hls + 40, 'after going back to the limit', hls, o.brief())
+                        if o.ok:
+                            r.violate('C27:header-list-beyond-limit-accepted:after-going-back', '')
+                        elif o.code != wire.ENHANCE_YOUR_CALM:
+                            r.violate('C27:oversized-header-list-wrong-code:%s' % o.code, '')
             if not dead and hls_touched:
                 ep.call('update_settings', {wire.S_MAX_HEADER_LIST_SIZE: 65536})
                 feed(wire.settings(ack=True), 1, 'header-list-size')
